@@ -82,11 +82,13 @@ CHECKS = {
          "about the character-level model. Trusted: Lean kernel, extractor, harness/driver, pad_integral model.",
          "Lean 4 executable model (text-exact correspondence) + declarative rounding oracle; partial proof", "DESIGN.md §5 C16"),
  "C17": ("Lean model of the serde glue: Serialize = the Display model of C04, Deserialize of strings and of arbitrary-precision JSON numbers = the parser model of C05 on the literal text (digit for "
-         "digit), the JSON-number adapters = serde_json's number grammar (recogniser) + the configured scale limit; integer/float tokens = exact conversions (IEEE bit semantics). Compared exactly "
-         "with the real serde_json round trips (string, Value, json_num, json_num_option incl. null, malformed numbers, limit +-1, token streams of every width). Kernel-checked so far: JSON-number "
-         "recogniser witnesses; the general theorems (display_is_json_number, json_number_accepted) are listed as open in DESIGN.md.",
-         "PARTIAL: decided per generated input by the Lean oracle. Trusted: serde/serde_json plumbing, the JSON grammar recogniser, Lean kernel, extractor, harness/driver.",
-         "Lean 4 executable model + oracle, differential correspondence; partial proof", "DESIGN.md §5 C17"),
+         "digit), the JSON-number adapters = serde_json's number grammar (recogniser) + the zero special case + the configured scale limit; integer/float tokens = exact conversions. Kernel-checked for "
+         "ALL storable decimals: C17_string_roundtrip (from_str(Display d) is an equal decimal, and the identical digits and scale whenever the scale is non-negative), C17_jsonnum_roundtrip (the "
+         "adapters' text reads back as an equal decimal whenever the scale respects the limit), C17_jsonnum_limit (beyond the limit: an error), JSON-number recogniser witnesses. Compared exactly with "
+         "the real serde_json round trips (string, Value, json_num, json_num_option incl. null, malformed numbers, limit +-1, token streams of every width).",
+         "PARTIAL: that the glue IS this composition (serde's data model, serde_json::Number's grammar accepting the Display text, integer/float tokens) is tied to the code by the correspondence only. "
+         "Trusted: serde/serde_json plumbing, the JSON grammar recogniser, Lean kernel, extractor, harness/driver.",
+         "Lean 4 proof (round trips as corollaries of the formatting and parsing theorems) + differential correspondence of the glue model", "DESIGN.md §5 C17"),
  "C10": ("Lean model of the repaired impl_sqrt (even total scale, floor square root, sticky digit, then with_precision_round = the declarative rounding proved in C07) and of the five entry "
          "points. Kernel-checked: the sticky lemma (10*isqrt(N)+1 lies on the same side of every multiple of ten as 10*sqrt(N), so rounding left of the sticky digit takes the decisions of the true "
          "root), evenness of the shifted scale, the exact branch, negative -> None, zero -> zero, copy-sign = abs with sign. Every sampled result of the real code is judged by an exact certificate "
